@@ -25,7 +25,8 @@ ITEMS = ["MAX_MSG_QUEUE_SIZE", "msg_queue_resume_size", "parser_queue_full", "pr
          "proto_stays_paused", "proto_resume_mark", "msg_consumed", "msg_in_flight increment",
          "parse_error_status", "timeout_status", "exception_status", "default_lingering_time",
          "ErrInfo append shape", "handle_error output_size shape", "parser constructed with the cap",
-         "HTTPException branch output_size shape", "StreamResponse._start resets the writer when _prepare_headers raises"]
+         "HTTPException branch output_size shape", "StreamResponse._start resets the writer when _prepare_headers raises",
+         "_settle_declined_upgrade called from finish_response and from start after the payload check"]
 
 WP = "aiohttp/web_protocol.py"
 HP = "aiohttp/http_parser.py"
@@ -223,6 +224,23 @@ def generate() -> str:
     if not ok:
         raise TranslatorError("StreamResponse._start: `try: await self._prepare_headers() except BaseException: "
                               "self._payload_writer = None; raise` not found")
+
+    # a declined upgrade is settled (parser switched back, _message_tail re-fed) by finish_response() AND by start() after
+    # the payload check (3de7072: the deferred upgrade of a request with a body takes effect only when the body ends)
+    sd = core.find_function(WP, "_settle_declined_upgrade", cls="RequestHandler")
+    if not any(isinstance(n, ast.Call) and isinstance(n.func, ast.Attribute) and n.func.attr == "set_upgraded" for n in ast.walk(sd)):
+        raise TranslatorError("_settle_declined_upgrade: does not switch the parser back (set_upgraded)")
+
+    def _calls_settle(fn):
+        return [n for n in ast.walk(fn) if isinstance(n, ast.Call) and _is_self_attr(n.func, "_settle_declined_upgrade")]
+    fr = core.find_function(WP, "finish_response", cls="RequestHandler")
+    _one(_calls_settle(fr), "finish_response: self._settle_declined_upgrade()")
+    c_st = _one(_calls_settle(st), "start: self._settle_declined_upgrade()")
+    acc = [n for n in ast.walk(st) if isinstance(n, ast.Call) and isinstance(n.func, ast.Attribute) and n.func.attr == "set_exception"
+           and isinstance(n.func.value, ast.Name) and n.func.value.id == "payload"]
+    acc = _one(acc, "start: payload.set_exception(_PAYLOAD_ACCESS_ERROR)")
+    if not c_st.lineno > acc.lineno:
+        raise TranslatorError("start: _settle_declined_upgrade() must run after the payload check")
 
     # handle_error: if request.writer.output_size > 0: raise ConnectionError(...)
     he = core.find_function(WP, "handle_error", cls="RequestHandler")
